@@ -36,7 +36,7 @@ LEVEL_TEXT = ('Coq theorems over an executable Gallina model of utils.str.byteTe
 LEVEL_NOTE = ('Trusted: Coq kernel, gen_tables.py, extraction + OCaml driver, the Python harness, CPython textwrap/str.encode (explicit inputs / compared). '
               'Partial: the formatted-text theorems require text whose only blanks are spaces (munge s = s) and use the sufficient predicate '
               '"no chunk starts with a digit or comma" rather than the exact junction condition; the end-to-end theorem is for plain text only and '
-              'bounds the number of chunks by 100 through a computed clause of plain_dom; reply.inPrivate/withNotice are modelled, action/error replies are not.')
+              '(C12_reply_fmt_end_to_end does the same for formatted text on fmt_dom, i.e. under safe_cuts); both bound the number of chunks by 100 through a computed clause; reply.inPrivate/withNotice are modelled, action/error replies are not.')
 TECHNIQUE = 'Coq proof (induction over the wrap loop with a fuel/measure invariant) + regenerated tables + extracted-model differential correspondence incl. live bot'
 EXPLANATION = 'C12: model of byteTextWrap/wrap/reply/more; theorems in coq/C12/Props.v'
 
@@ -347,6 +347,9 @@ def drain(irc):
     while True:
         m = irc.takeMsg()
         if m is None:
+            # (takeMsg is firewalled: an exception inside it also gives None, with messages still queued)
+            if irc.fastqueue or irc.queue:
+                continue
             return out
         if m.command in ('PRIVMSG', 'NOTICE'):
             out.append(str(m))
@@ -381,10 +384,14 @@ def reply_env(inp):
 
 
 def live_run(inp, max_rounds=400):
-    """returns (public?, transcript: list of rounds, each a list of str(msg))"""
+    """returns (public?, transcript: list of rounds, each a list of str(msg)); with inp['ops'] (a string over
+    A = the owner's `more`, N = another user's `more <owner's nick>`, B = that user's `more`) the rounds are
+    [first] + one per op + the owner's `more` until exhaustion, and inp['_ops'] is set to the ops really run"""
     b = bot()
     irc, conf, ircmsgs = b['irc'], b['conf'], b['ircmsgs']
     b['n'] += 1
+    import supybot.callbacks as callbacks
+    callbacks.NestedCommandsIrcProxy._mores.clear()
     botnick = inp['botprefix'].split('!')[0]
     irc.prefix = inp['botprefix']
     irc.nick = botnick
@@ -414,13 +421,28 @@ def live_run(inp, max_rounds=400):
     rounds = []
     irc.feedMsg(ircmsgs.privmsg(to, '@emit', prefix=frm))
     rounds.append(drain(irc))
+    peer = 'zed!p%d@peer.example' % b['n']
+    ops = list(inp.get('ops', ''))
+    errors = (NO_MORE, NO_CMD, "Sorry, I can't find any mores", 'has no public mores')
+    for op in ops:
+        if op == 'A':
+            irc.feedMsg(ircmsgs.privmsg(to, '@more', prefix=frm))
+        elif op == 'N':
+            irc.feedMsg(ircmsgs.privmsg(to, '@more %s' % inp['nick'], prefix=peer))
+        else:
+            irc.feedMsg(ircmsgs.privmsg(to, '@more', prefix=peer))
+        out = drain(irc)
+        rounds.append([] if len(out) == 1 and any(e in out[0] for e in errors) else out)
     for _ in range(max_rounds):
         irc.feedMsg(ircmsgs.privmsg(to, '@more', prefix=frm))
         out = drain(irc)
+        ops.append('A')
         if len(out) == 1 and (NO_MORE in out[0] or NO_CMD in out[0]):
             rounds.append([])
             break
         rounds.append(out)
+    if 'ops' in inp:
+        inp['_ops'] = ''.join(ops)
     return public, rounds
 
 
@@ -431,6 +453,8 @@ def live_wire(inp, public, times):
            inp.get('kwPrivate', False), inp.get('confInPrivate', False), wire.opt(inp.get('kwTo')),
            bool(inp.get('kwTo')) and bot()['irc'].isChannel(inp['kwTo']), inp.get('kwNotice', False),
            inp.get('confWithNotice', False)]
+    if 'ops' in inp:
+        return [8, [cfg, inp['s'], inp['number'], ['ANB'.index(o) for o in inp['_ops']]]]
     return [5, [cfg, inp['s'], inp['number'], times]]
 
 
@@ -559,6 +583,12 @@ def gen_live(rng, kind):
     if kind == 'keywords':
         tk = rng.choice(['plain', 'plain', 'mb'])
         nchunks = rng.choice([2, 3, 4])
+    if kind == 'nickmore':
+        # another user looks at the owner's pending chunks with `more <nick>`, interleaved with her own `more`
+        inp.update(private=False, mores=True)
+        inp['ops'] = ''.join(rng.choice('AANNB') for _ in range(rng.choice([2, 3, 5, 8])))
+        tk = rng.choice(['plain', 'mb', 'fmt'])
+        nchunks = rng.choice([3, 4, 6, 9])
     target_bytes = int(allowed * nchunks * rng.uniform(0.5, 1.0))
     maxword = rng.choice([12, 12, 12, 40, allowed + 50, 3 * allowed])
     if tk == 'junction':
@@ -578,6 +608,8 @@ def gen_live(rng, kind):
 
 # witnesses of the repaired defects C12.F40, F42, F41, F13, F12 (must stay green), then F14's
 LIVE_CORPUS = [
+    {'op': 'live', 'kind': 'corpus', 'botprefix': 'test!user@host.example', 'nick': 'alice', 'chan': '#chan', 'private': False, 'prefixNick': True, 'noticePriv': True, 'mores': True, 'length': 0, 'maximum': 50, 'instant': 1, 'number': 1, 's': 'w000w000w000w000w000w000w000w000w000w000w000w000w000w000w000w000w000w000w000w000 w001w001w001w001w001w001w001w001w001w001w001w001w001w001w001w001w001w001w001w001 w002w002w002w002w002w002w002w002w002w002w002w002w002w002w002w002w002w002w002w002 w003w003w003w003w003w003w003w003w003w003w003w003w003w003w003w003w003w003w003w003 w004w004w004w004w004w004w004w004w004w004w004w004w004w004w004w004w004w004w004w004 w005w005w005w005w005w005w005w005w005w005w005w005w005w005w005w005w005w005w005w005 w006w006w006w006w006w006w006w006w006w006w006w006w006w006w006w006w006w006w006w006 w007w007w007w007w007w007w007w007w007w007w007w007w007w007w007w007w007w007w007w007 w008w008w008w008w008w008w008w008w008w008w008w008w008w008w008w008w008w008w008w008 w009w009w009w009w009w009w009w009w009w009w009w009w009w009w009w009w009w009w009w009 w010w010w010w010w010w010w010w010w010w010w010w010w010w010w010w010w010w010w010w010 w011w011w011w011w011w011w011w011w011w011w011w011w011w011w011w011w011w011w011w011 w012w012w012w012w012w012w012w012w012w012w012w012w012w012w012w012w012w012w012w012 w013w013w013w013w013w013w013w013w013w013w013w013w013w013w013w013w013w013w013w013 w014w014w014w014w014w014w014w014w014w014w014w014w014w014w014w014w014w014w014w014 w015w015w015w015w015w015w015w015w015w015w015w015w015w015w015w015w015w015w015w015 w016w016w016w016w016w016w016w016w016w016w016w016w016w016w016w016w016w016w016w016 w017w017w017w017w017w017w017w017w017w017w017w017w017w017w017w017w017w017w017w017 w018w018w018w018w018w018w018w018w018w018w018w018w018w018w018w018w018w018w018w018 w019w019w019w019w019w019w019w019w019w019w019w019w019w019w019w019w019w019w019w019 w020w020w020w020w020w020w020w020w020w020w020w020w020w020w020w020w020w020w020w020 w021w021w021w021w021w021w021w021w021w021w021w021w021w021w021w021w021w021w021w021 w022w022w022w022w022w022w022w022w022w022w022w022w022w022w022w022w022w022w022w022 w023w023w023w023w023w023w023w023w023w023w023w023w023w023w023w023w023w023w023w023 w024w024w024w024w024w024w024w024w024w024w024w024w024w024w024w024w024w024w024w024 w025w025w025w025w025w025w025w025w025w025w025w025w025w025w025w025w025w025w025w025 w026w026w026w026w026w026w026w026w026w026w026w026w026w026w026w026w026w026w026w026 w027w027w027w027w027w027w027w027w027w027w027w027w027w027w027w027w027w027w027w027 w028w028w028w028w028w028w028w028w028w028w028w028w028w028w028w028w028w028w028w028 w029w029w029w029w029w029w029w029w029w029w029w029w029w029w029w029w029w029w029w029 w030w030w030w030w030w030w030w030w030w030w030w030w030w030w030w030w030w030w030w030 w031w031w031w031w031w031w031w031w031w031w031w031w031w031w031w031w031w031w031w031 w032w032w032w032w032w032w032w032w032w032w032w032w032w032w032w032w032w032w032w032 w033w033w033w033w033w033w033w033w033w033w033w033w033w033w033w033w033w033w033w033 w034w034w034w034w034w034w034w034w034w034w034w034w034w034w034w034w034w034w034w034 w035w035w035w035w035w035w035w035w035w035w035w035w035w035w035w035w035w035w035w035 w036w036w036w036w036w036w036w036w036w036w036w036w036w036w036w036w036w036w036w036 w037w037w037w037w037w037w037w037w037w037w037w037w037w037w037w037w037w037w037w037 w038w038w038w038w038w038w038w038w038w038w038w038w038w038w038w038w038w038w038w038 w039w039w039w039w039w039w039w039w039w039w039w039w039w039w039w039w039w039w039w039', 'ops': 'NA'},   # old witness of C12.F44 (repaired): zed's `more alice`, then alice's own `more`
+    {'op': 'live', 'kind': 'corpus', 'botprefix': 'test!user@host.example', 'nick': 'alice', 'chan': '#chan', 'private': False, 'prefixNick': True, 'noticePriv': True, 'mores': True, 'length': 0, 'maximum': 50, 'instant': 1, 'number': 2, 's': 'w000w000w000w000w000w000w000w000w000w000w000w000w000w000w000w000w000w000w000w000 w001w001w001w001w001w001w001w001w001w001w001w001w001w001w001w001w001w001w001w001 w002w002w002w002w002w002w002w002w002w002w002w002w002w002w002w002w002w002w002w002 w003w003w003w003w003w003w003w003w003w003w003w003w003w003w003w003w003w003w003w003 w004w004w004w004w004w004w004w004w004w004w004w004w004w004w004w004w004w004w004w004 w005w005w005w005w005w005w005w005w005w005w005w005w005w005w005w005w005w005w005w005 w006w006w006w006w006w006w006w006w006w006w006w006w006w006w006w006w006w006w006w006 w007w007w007w007w007w007w007w007w007w007w007w007w007w007w007w007w007w007w007w007 w008w008w008w008w008w008w008w008w008w008w008w008w008w008w008w008w008w008w008w008 w009w009w009w009w009w009w009w009w009w009w009w009w009w009w009w009w009w009w009w009 w010w010w010w010w010w010w010w010w010w010w010w010w010w010w010w010w010w010w010w010 w011w011w011w011w011w011w011w011w011w011w011w011w011w011w011w011w011w011w011w011 w012w012w012w012w012w012w012w012w012w012w012w012w012w012w012w012w012w012w012w012 w013w013w013w013w013w013w013w013w013w013w013w013w013w013w013w013w013w013w013w013 w014w014w014w014w014w014w014w014w014w014w014w014w014w014w014w014w014w014w014w014 w015w015w015w015w015w015w015w015w015w015w015w015w015w015w015w015w015w015w015w015 w016w016w016w016w016w016w016w016w016w016w016w016w016w016w016w016w016w016w016w016 w017w017w017w017w017w017w017w017w017w017w017w017w017w017w017w017w017w017w017w017 w018w018w018w018w018w018w018w018w018w018w018w018w018w018w018w018w018w018w018w018 w019w019w019w019w019w019w019w019w019w019w019w019w019w019w019w019w019w019w019w019 w020w020w020w020w020w020w020w020w020w020w020w020w020w020w020w020w020w020w020w020 w021w021w021w021w021w021w021w021w021w021w021w021w021w021w021w021w021w021w021w021 w022w022w022w022w022w022w022w022w022w022w022w022w022w022w022w022w022w022w022w022 w023w023w023w023w023w023w023w023w023w023w023w023w023w023w023w023w023w023w023w023 w024w024w024w024w024w024w024w024w024w024w024w024w024w024w024w024w024w024w024w024 w025w025w025w025w025w025w025w025w025w025w025w025w025w025w025w025w025w025w025w025 w026w026w026w026w026w026w026w026w026w026w026w026w026w026w026w026w026w026w026w026 w027w027w027w027w027w027w027w027w027w027w027w027w027w027w027w027w027w027w027w027 w028w028w028w028w028w028w028w028w028w028w028w028w028w028w028w028w028w028w028w028 w029w029w029w029w029w029w029w029w029w029w029w029w029w029w029w029w029w029w029w029 w030w030w030w030w030w030w030w030w030w030w030w030w030w030w030w030w030w030w030w030 w031w031w031w031w031w031w031w031w031w031w031w031w031w031w031w031w031w031w031w031 w032w032w032w032w032w032w032w032w032w032w032w032w032w032w032w032w032w032w032w032 w033w033w033w033w033w033w033w033w033w033w033w033w033w033w033w033w033w033w033w033 w034w034w034w034w034w034w034w034w034w034w034w034w034w034w034w034w034w034w034w034 w035w035w035w035w035w035w035w035w035w035w035w035w035w035w035w035w035w035w035w035 w036w036w036w036w036w036w036w036w036w036w036w036w036w036w036w036w036w036w036w036 w037w037w037w037w037w037w037w037w037w037w037w037w037w037w037w037w037w037w037w037 w038w038w038w038w038w038w038w038w038w038w038w038w038w038w038w038w038w038w038w038 w039w039w039w039w039w039w039w039w039w039w039w039w039w039w039w039w039w039w039w039', 'ops': 'NABAB'},
     {'op': 'live', 'kind': 'corpus', 'botprefix': 'test!limnoria@bot.users.example.org', 'nick': 'a_rather_long_nickname', 'chan': '#c', 'private': False, 'prefixNick': True, 'noticePriv': True, 'mores': True, 'length': 0, 'maximum': 50, 'instant': 1, 'number': 1, 'kwPrivate': True, 's': 'yyyyyyyyyyyyyyyyyyyyyyyyyyyyyyyyyyyyyyyyyyyyyyyyyyyyyyyyyyyyyyyyyyyyyyyyyyyyyyyyyyyyyyyyyyyyyyyyyyyyyyyyyyyyyyyyyyyyyyyyyyyyyyyyyyyyyyyyyyyyyyyyyyyyyyyyyyyyyyyyyyyyyyyyyyyyyyyyyyyyyyyyyyyyyyyyyyyyyyyyyyyyyyyyyyyyyyyyyyyyyyyyyyyyyyyyyyyyyyyyyyyyyyyyyyyyyyyyyyyyyyyyyyyyyyyyyyyyyyyyyyyyyyyyyyyyyyyyyyyyyyyyyyyyyyyyyyyyyyyyyyyyyyyyyyyyyyyyyyyyyyyyyyyyyyyyyyyyyyyyyyyyyyyyyyyyyyyyyyyyyyyyyyyyyyyyyyyyyyyyyyyyyyyyyyyyyyyyyyyyyyyyyyyyyyyyyyyyyyyyyyyyyyyyyyyyyyyyyyyyyyyyyyyyyyyyyyyyyyyyyyyyyyyyyyyyyyyyyyyyyyyyyyyyyyyyyyyyyyyyyyyyyyyyyyyyyyyyyyyyyyyyyyyyyyyyyyyyyyyyyyyyyyyyyyyyyyyyyyyyyyyyyyyyyyyyyyyyyyyyyyyyyyyyyyyyyyyyyyyyyyyyyyyyyyyyyyyyyyyyyyyyyyyyyyyyyyyyyyyyyyyyyyyyyyyyyyyyyyyyyyyyyyyyyyyyyyyyyyyyyyyyyyyyyyyyyyyyyyyyyyyyyyyyyyyyyyyyyyyyyyyyyyyyyyyyyyyyyyyyyyyyyyyyyyyyyyyyyyyyyyyyyyyyyyyyyyyyyyyyyyyyyyyyyyyyyyyyyyyyyyyyyyyyyyyyyyyyyyyyyyyyyyyyyyyyyyyyyyyyyyyyyyyyyyyyyyyyyyyyyyyyyyyyyyyyyyyyyyyyyyyyyyyyyyyyyyyyyyyyyyyyyyyyyyyyyyyyyyyyyyyyyyyyyyyyyyyyyyyyyyyyyyyyyyyyyyyyyyyyyyyyyyyyyyyyyyyyyyyyyyyyyyyyyyyyyyyyyyyyyyyyyyyyyyyyyyyyyyyyyyyyyyyyyyyyyyyyyyyyyyyyyyyyyyyyyyyyyyyyyyyyyyyyyyyyyyyyyyyyyyyyyyyyyyyyyyyyyyyyyyyyyyyyyyyyyyyyyyyyyyyyyyyyyyyyyyyyyyyyyyyyyyyyyyyyyyyyyyyyyyyyyyyyyyyyyyyyyyyyyyyyyyyyyyyyyyyyyyyyyyyyyyyyyyyyyyyyyyyyyyyyyyyyyyyyyyyyyyyyyyyyyyyyyyyyyyyyyyyyyyyyyyyyyyyyyyyyyyyy'},   # private=True in a channel, long nick: fits only thanks to the nick-prefix reserve
     {'op': 'live', 'kind': 'corpus', 'botprefix': 'test!limnoria@bot.users.example.org', 'nick': 'a_rather_long_nickname', 'chan': '#c', 'private': False, 'prefixNick': True, 'noticePriv': True, 'mores': True, 'length': 0, 'maximum': 50, 'instant': 1, 'number': 1, 'kwPrivate': True, 's': 'wordwordword wordwordword wordwordword wordwordword wordwordword wordwordword wordwordword wordwordword wordwordword wordwordword wordwordword wordwordword wordwordword wordwordword wordwordword wordwordword wordwordword wordwordword wordwordword wordwordword wordwordword wordwordword wordwordword wordwordword wordwordword wordwordword wordwordword wordwordword wordwordword wordwordword wordwordword wordwordword wordwordword wordwordword wordwordword wordwordword wordwordword wordwordword wordwordword wordwordword wordwordword wordwordword wordwordword wordwordword wordwordword wordwordword wordwordword wordwordword wordwordword wordwordword wordwordword wordwordword wordwordword wordwordword wordwordword wordwordword wordwordword wordwordword wordwordword wordwordword wordwordword wordwordword wordwordword wordwordword wordwordword wordwordword wordwordword wordwordword wordwordword wordwordword wordwordword wordwordword wordwordword wordwordword wordwordword wordwordword wordwordword wordwordword wordwordword wordwordword wordwordword wordwordword wordwordword wordwordword wordwordword wordwordword wordwordword wordwordword wordwordword wordwordword wordwordword wordwordword wordwordword wordwordword wordwordword wordwordword wordwordword wordwordword wordwordword wordwordword wordwordword wordwordword wordwordword wordwordword wordwordword wordwordword wordwordword wordwordword wordwordword wordwordword'},
     {'op': 'live', 'kind': 'corpus', 'botprefix': 'test!limnoria@bot.users.example.org', 'nick': 'a_rather_long_nickname', 'chan': '#c', 'private': False, 'prefixNick': False, 'noticePriv': True, 'mores': True, 'length': 0, 'maximum': 50, 'instant': 1, 'number': 1, 'kwPrivate': True, 's': 'yyyyyyyyyyyyyyyyyyyyyyyyyyyyyyyyyyyyyyyyyyyyyyyyyyyyyyyyyyyyyyyyyyyyyyyyyyyyyyyyyyyyyyyyyyyyyyyyyyyyyyyyyyyyyyyyyyyyyyyyyyyyyyyyyyyyyyyyyyyyyyyyyyyyyyyyyyyyyyyyyyyyyyyyyyyyyyyyyyyyyyyyyyyyyyyyyyyyyyyyyyyyyyyyyyyyyyyyyyyyyyyyyyyyyyyyyyyyyyyyyyyyyyyyyyyyyyyyyyyyyyyyyyyyyyyyyyyyyyyyyyyyyyyyyyyyyyyyyyyyyyyyyyyyyyyyyyyyyyyyyyyyyyyyyyyyyyyyyyyyyyyyyyyyyyyyyyyyyyyyyyyyyyyyyyyyyyyyyyyyyyyyyyyyyyyyyyyyyyyyyyyyyyyyyyyyyyyyyyyyyyyyyyyyyyyyyyyyyyyyyyyyyyyyyyyyyyyyyyyyyyyyyyyyyyyyyyyyyyyyyyyyyyyyyyyyyyyyyyyyyyyyyyyyyyyyyyyyyyyyyyyyyyyyyyyyyyyyyyyyyyyyyyyyyyyyyyyyyyyyyyyyyyyyyyyyyyyyyyyyyyyyyyyyyyyyyyyyyyyyyyyyyyyyyyyyyyyyyyyyyyyyyyyyyyyyyyyyyyyyyyyyyyyyyyyyyyyyyyyyyyyyyyyyyyyyyyyyyyyyyyyyyyyyyyyyyyyyyyyyyyyyyyyyyyyyyyyyyyyyyyyyyyyyyyyyyyyyyyyyyyyyyyyyyyyyyyyyyyyyyyyyyyyyyyyyyyyyyyyyyyyyyyyyyyyyyyyyyyyyyyyyyyyyyyyyyyyyyyyyyyyyyyyyyyyyyyyyyyyyyyyyyyyyyyyyyyyyyyyyyyyyyyyyyyyyyyyyyyyyyyyyyyyyyyyyyyyyyyyyyyyyyyyyyyyyyyyyyyyyyyyyyyyyyyyyyyyyyyyyyyyyyyyyyyyyyyyyyyyyyyyyyyyyyyyyyyyyyyyyyyyyyyyyyyyyyyyyyyyyyyyyyyyyyyyyyyyyyyyyyyyyyyyyyyyyyyyyyyyyyyyyyyyyyyyyyyyyyyyyyyyyyyyyyyyyyyyyyyyyyyyyyyyyyyyyyyyyyyyyyyyyyyyyyyyyyyyyyyyyyyyyyyyyyyyyyyyyyyyyyyyyyyyyyyyyyyyyyyyyyyyyyyyyyyyyyyyyyyyyyyyyyyyyyyyyyyyyyyyyyyyyyyyyyyyyyyyyyyyyyyyyyyyyyyyyyyyyyyyyyyyyyyyyyyyyyyyyyyyyyyyyyyyyyyyyyyyyyyyyyyyyyyyyyyyyyyyyyyyy'},   # old witness of C12.F43 (repaired)
@@ -607,7 +639,17 @@ def check_live(ctx, inp, ircutils, kind=None):
             flat = [m for r in rounds for m in r]
             if not (flat and ERR in flat[0]):
                 ctx.disagree(inp, mr, rounds[:2], 'live: model raises, bot answered')
-    live_oracle(ctx, inp, public, rounds, ircutils)
+    live_oracle(ctx, inp, public, owner_rounds(inp, rounds), ircutils)
+
+
+def owner_rounds(inp, rounds):
+    """the rounds of the reply's owner: the first answer and the outputs of her own `more` commands"""
+    if 'ops' not in inp:
+        return rounds
+    mine = [rounds[0]] + [r for o, r in zip(inp['_ops'], rounds[1:]) if o == 'A']
+    while len(mine) > 2 and not mine[-1] and not mine[-2]:      # `more` after exhaustion: one empty answer is enough
+        mine.pop()
+    return mine
 
 
 def run(ctx):
@@ -617,7 +659,7 @@ def run(ctx):
     run_unit(ctx, unit_inputs(ctx), ircutils, utils)
     rng = ctx.rng
     plan = (('plain', 120), ('mb', 100), ('ws', 60), ('fmt', 120), ('color0', 40), ('junction', 60), ('hostile', 80), ('many', 20),
-            ('nonascii', 15), ('privnick', 15), ('keywords', 150))
+            ('nonascii', 15), ('privnick', 15), ('keywords', 150), ('nickmore', 80))
     for kind, base in plan:
         for _ in range(ctx.n(base)):
             check_live(ctx, gen_live(rng, kind), ircutils)
@@ -632,8 +674,9 @@ def replay(ctx, inp):
         iw = guarded(lambda: ircutils.wrap(text, size), 5)
         unit_oracle(sub, inp, text, size, ib, iw, ircutils)
     else:
+        inp = dict(inp)
         public, rounds = live_run(inp)
-        live_oracle(sub, inp, public, rounds, ircutils)
+        live_oracle(sub, inp, public, owner_rounds(inp, rounds), ircutils)
     return sub.failures[0]['detail'] if sub.failures else None
 
 
